@@ -53,6 +53,32 @@ func (c *Ctx) checkModeTables() {
 			b2l[int64(1)<<uint(idx)] = rune(v)
 		}
 	})
+	// or from a constant string indexed by the bit number: `const letters = "JRWPASDO"; letters[i]`
+	if len(b2l) < 8 {
+		b2l = map[int64]rune{}
+		core.AllInstrs(marshal, func(in ssa.Instruction) {
+			var sv ssa.Value
+			switch x := in.(type) {
+			case *ssa.Lookup:
+				sv = x.X
+			case *ssa.Index:
+				sv = x.X
+			}
+			if sv == nil {
+				return
+			}
+			if k, ok := sv.(*ssa.Const); ok && k.Value != nil && k.Value.Kind() == constant.String {
+				str := constant.StringVal(k.Value)
+				if len(str) == 8 {
+					for i, ch := range str {
+						if ch >= 'A' && ch <= 'Z' {
+							b2l[int64(1)<<uint(i)] = ch
+						}
+					}
+				}
+			}
+		})
+	}
 	// letter -> bit from ParseAcs: `if b[i] == K` true edge reaches (within 2 hops) `m0 | BIT`
 	l2b := map[rune]int64{}
 	noneLetters := map[rune]bool{}
@@ -92,6 +118,42 @@ func (c *Ctx) checkModeTables() {
 			}
 			if found {
 				break
+			}
+			// `case K: bit = BIT` followed by one `m0 |= bit` after the switch: the constant arrives
+			// through a phi of the block the arm jumps to
+			if len(tb.Succs) == 1 {
+				nb := tb.Succs[0]
+				pi := -1
+				for i, p := range nb.Preds {
+					if p == tb {
+						pi = i
+					}
+				}
+				for _, in := range nb.Instrs {
+					phi, ok := in.(*ssa.Phi)
+					if !ok {
+						break
+					}
+					if pi >= 0 && isModeType(phi.Type()) {
+						if bit, ok := core.ConstIntValue(phi.Edges[pi]); ok && bit != 0 {
+							usedInOr := false
+							if phi.Referrers() != nil {
+								for _, ref := range *phi.Referrers() {
+									if bo, ok := ref.(*ssa.BinOp); ok && bo.Op == token.OR {
+										usedInOr = true
+									}
+								}
+							}
+							if usedInOr {
+								l2b[rune(k)] = bit
+								found = true
+							}
+						}
+					}
+				}
+				if found {
+					break
+				}
 			}
 			// the N arm: compares m0 with ModeUnset
 			for _, in := range tb.Instrs {
@@ -147,6 +209,17 @@ func (c *Ctx) checkModeTables() {
 			nErr++
 		}
 	})
+	if nErr < 2 {
+		// single exit: the two errors are created in the arms and returned through one variable
+		nErr = 0
+		core.AllInstrs(parse, func(in ssa.Instruction) {
+			if call, ok := in.(*ssa.Call); ok {
+				if n := calleeFullName(call); n == "errors.New" || n == "fmt.Errorf" {
+					nErr++
+				}
+			}
+		})
+	}
 	r.Check(nErr >= 2, "C05.1-mode-tables-agree", "ParseAcs: unknown letters and N combined with others are errors", c.P.Pos(parse.Pos()), "", "ParseAcs no longer rejects unknown letters")
 }
 
@@ -253,7 +326,9 @@ func (c *Ctx) checkMutationProtocol() {
 	r.Func(fk(ad))
 	mask := c.konst("server/store/types", "ModeBitmask")
 	nMasked, nOps := 0, 0
-	core.AllInstrs(ad, func(in ssa.Instruction) {
+	c.noDescend = map[*ssa.Function]bool{c.ssaFn("server/store/types", "ParseAcs"): true} // the letter parser builds its own bit sets
+	defer func() { c.noDescend = nil }()
+	c.withCallees(ad, 2, func(_ *ssa.Function, in ssa.Instruction, _ ssa.Instruction) {
 		if b, ok := in.(*ssa.BinOp); ok && isModeType(b.Type()) && (b.Op == token.OR || b.Op == token.AND_NOT) {
 			nOps++
 			if core.IsBinOp(token.AND, core.Any, core.IsConstOf(mask), true)(b.Y) {
@@ -261,7 +336,7 @@ func (c *Ctx) checkMutationProtocol() {
 			}
 		}
 	})
-	r.Check(nOps == 2 && nMasked == 2, "C05.4-mutation-protocol", fk(ad)+": + and - operate on upd & ModeBitmask", c.P.Pos(ad.Pos()), "", fmt.Sprintf("%d of %d delta operations are masked with ModeBitmask", nMasked, nOps))
+	r.Check(nOps >= 2 && nMasked == nOps, "C05.4-mutation-protocol", fk(ad)+": + and - operate on upd & ModeBitmask", c.P.Pos(ad.Pos()), "", fmt.Sprintf("%d of %d delta operations are masked with ModeBitmask", nMasked, nOps))
 	// the receiver is assigned only at the end: no path from the store to a return with non-nil error
 	core.AllInstrs(ad, func(in ssa.Instruction) {
 		st, ok := in.(*ssa.Store)
@@ -275,6 +350,33 @@ func (c *Ctx) checkMutationProtocol() {
 			ret, ok := x.(*ssa.Return)
 			return ok && !core.IsNil(ret.Results[0])
 		}, nil, nil)
+		if found {
+			// confirm on nil-feasible paths: `if err == nil { *m = v }; return err`
+			found = false
+			// walk from the store with the facts that hold there
+			var factsAtStore []core.NilFacts
+			core.NilWalk(ad, nil, nil, nil, func(x ssa.Instruction, f core.NilFacts) {
+				if x == ssa.Instruction(st) {
+					g := core.NilFacts{}
+					for k, v := range f {
+						g[k] = v
+					}
+					factsAtStore = append(factsAtStore, g)
+				}
+			})
+			for _, f0 := range factsAtStore {
+				r2 := core.NilWalkAfterWith(ad, st, f0, nil, nil, func(x ssa.Instruction, f core.NilFacts) {
+					if ret, ok := x.(*ssa.Return); ok {
+						if k, n := core.Nilness(ret.Results[0], f); !(k && n) {
+							found = true
+						}
+					}
+				})
+				if r2.Overflow {
+					found = true
+				}
+			}
+		}
 		r.Check(!found, "C05.4-mutation-protocol", fk(ad)+": target assigned only after the whole delta parsed", c.pos(st), "", "a delta with an invalid chunk partially changes the target")
 	})
 	// (d) emitter: the delta strings of notifications come from Delta() or String()
